@@ -415,6 +415,28 @@ var scenarios = []scenario{
 		s.do(a, freeSid(la.sid))
 		s.do(a, putfh(s.fh(1)), closeOp(oa.sid))
 	}},
+	{"downgrade-while-locked-then-upgrade", func(s *script) {
+		// The lock-owner file alone keeps the write share after the
+		// downgrade; the upgrade must treat its leaf open as redundant.
+		a := s.client("A", 1)
+		s.do(a, putroot(), openName("o1", "a", shRW, "NOCREATE"), getfh())
+		oa := a.open("o1", s.fh(1))
+		s.do(a, putfh(s.fh(1)), lockNew(oa.sid, "l1", "W", 0, 2))
+		s.do(a, putfh(s.fh(1)), downgrade(oa.sid, shR))
+		s.do(a, putfh(s.fh(1)), openFH("o1", shW, "FH"))
+		s.do(a, putfh(s.fh(1)), closeOp(oa.sid))
+		// the same with the read bit, by name, and with FREE_STATEID in between
+		s.do(a, putroot(), openName("o2", "b", shRW, "NOCREATE"), getfh())
+		ob := a.open("o2", s.fh(2))
+		s.do(a, putfh(s.fh(2)), lockNew(ob.sid, "l2", "R", 1, 3))
+		s.do(a, putfh(s.fh(2)), downgrade(ob.sid, shW))
+		s.do(a, putroot(), openName("o2", "b", shR, "NOCREATE"), getfh())
+		lb := a.lock("o2", "l2", s.fh(2))
+		s.do(a, putfh(s.fh(2)), locku(lb.sid, 0, 4))
+		s.do(a, freeSid(lb.sid))
+		s.do(a, putfh(s.fh(2)), downgrade(ob.sid, shR))
+		s.do(a, putfh(s.fh(2)), closeOp(ob.sid))
+	}},
 	{"reregistration", func(s *script) {
 		a := s.client("A", 1)
 		b := s.client("B", 1)
